@@ -31,6 +31,11 @@ N == Len(T)
 F0 == [stop |-> 0, abort |-> 0, expg |-> 0, sleep |-> 0, xok |-> 0, cfn |-> 0, onx |-> 0, res |-> 0]
 Logged(r) == [stop |-> r.stop, abort |-> r.abort, expg |-> r.expg, sleep |-> r.sleep, xok |-> r.xok,
               cfn |-> r.cfn, onx |-> r.onx, res |-> r.res]
+\* Code that runs without eq_mtx between operations changes some fields unlogged: nni_aio_reset (result, abort,
+\* expire_ok, sleep := 0) and the prelude of nni_sleep_aio (sleep := 1, expire_ok := 0/1).  Any later record may
+\* therefore see the state before it, or that state after such an unlogged change.
+Reset(x) == [x EXCEPT !.abort = 0, !.res = 0, !.sleep = 0, !.xok = 0]
+HavocSet(x) == {x, Reset(x), [Reset(x) EXCEPT !.sleep = 1, !.xok = 1], [Reset(x) EXCEPT !.sleep = 1, !.xok = 0]}
 ESTOPPED == 999   \* tools/aiotrace.py maps NNG_ESTOPPED to 999, NNG_ETIMEDOUT to 5
 ETIMEDOUT == 5
 
@@ -66,34 +71,34 @@ Start ==
   /\ UNCHANGED <<incb, hascb>>
 
 \* nni_aio_finish_impl.  a1 = rv, a2 = skip callback, a3 = sync
-Finish ==
+Finish == \E g \in HavocSet(f) :
   /\ Ev("finish")
   /\ ~dead                                     \* the provider must not touch an aio after start returned false
   /\ R.cfn = 0 /\ R.onx = 0 /\ R.sleep = 0 /\ R.res = R.a1
-  /\ R.stop = f.stop /\ R.abort = f.abort /\ R.expg = f.expg /\ R.xok = f.xok
+  /\ R.stop = g.stop /\ R.abort = g.abort /\ R.expg = g.expg /\ R.xok = g.xok
   /\ f' = Logged(R)
   /\ active' = FALSE
   /\ owed' = IF R.a2 = 1 THEN owed ELSE Owe(1)
   /\ UNCHANGED <<dead, incb, hascb>>
 
 \* nni_aio_abort.  a1 = rv, a2 = cancel function taken
-Abort ==
+Abort == \E g \in HavocSet(f) :
   /\ Ev("abort")
-  /\ R.a2 = f.cfn                               \* the cancel function is taken iff one was installed
+  /\ R.a2 = g.cfn                               \* the cancel function is taken iff one was installed
   /\ R.cfn = 0 /\ R.onx = 0
-  /\ R.abort = (IF R.a2 = 1 THEN f.abort ELSE 1)
-  /\ R.res = f.res                              \* a late abort does not disturb the result
-  /\ R.stop = f.stop /\ R.expg = f.expg /\ R.sleep = f.sleep /\ R.xok = f.xok
+  /\ R.abort = (IF R.a2 = 1 THEN g.abort ELSE 1)
+  /\ R.res = g.res                              \* a late abort does not disturb the result
+  /\ R.stop = g.stop /\ R.expg = g.expg /\ R.sleep = g.sleep /\ R.xok = g.xok
   /\ f' = Logged(R)
   /\ UNCHANGED <<active, dead, owed, incb, hascb>>
 
 \* nni_aio_stop / nni_aio_fini critical section (both wait for an expiry in progress first); nni_aio_close does not wait
-StopLike(e, waits) ==
+StopLike(e, waits) == \E g \in HavocSet(f) :
   /\ Ev(e)
-  /\ R.a1 = f.cfn
+  /\ R.a1 = g.cfn
   /\ R.stop = 1 /\ R.cfn = 0 /\ R.onx = 0
   /\ (waits => R.expg = 0)
-  /\ R.abort = f.abort /\ R.sleep = f.sleep /\ R.xok = f.xok /\ R.res = f.res
+  /\ R.abort = g.abort /\ R.sleep = g.sleep /\ R.xok = g.xok /\ R.res = g.res
   /\ f' = Logged(R)
   /\ UNCHANGED <<active, dead, owed, incb, hascb>>
 \* return of nni_aio_stop (after nni_aio_wait): nothing outstanding, owed or running
@@ -109,26 +114,26 @@ StopWait == Ev("stop_wait") /\ Same
 WaitDone == /\ Ev("wait_done") /\ ~active /\ owed = 0 /\ incb = 0 /\ Same
 
 \* expire loop: take (a1 = now - a_expire, a2 = 1 when the queue is being stopped at nng_fini)
-XTake == /\ Ev("xtake")
-         /\ f.onx = 1 /\ f.expg = 0
+XTake == \E g \in HavocSet(f) : /\ Ev("xtake")
+         /\ g.onx = 1 /\ g.expg = 0
          /\ (R.a2 = 0 => R.a1 > 0)              \* a timeout never fires before the deadline
          /\ R.onx = 0 /\ R.expg = 1
-         /\ R.stop = f.stop /\ R.abort = f.abort /\ R.sleep = f.sleep /\ R.xok = f.xok /\ R.cfn = f.cfn /\ R.res = f.res
+         /\ R.stop = g.stop /\ R.abort = g.abort /\ R.sleep = g.sleep /\ R.xok = g.xok /\ R.cfn = g.cfn /\ R.res = g.res
          /\ f' = Logged(R)
          /\ UNCHANGED <<active, dead, owed, incb, hascb>>
 \* expire loop: fire (a1 = rv, a2 = cancel fn taken, a3 = was sleeping); logged before the sleep completion is applied
-XFire == /\ Ev("xfire")
-         /\ f.expg = 1
-         /\ R.cfn = 0 /\ R.expg = 1 /\ R.onx = f.onx
+XFire == \E g \in HavocSet(f) : /\ Ev("xfire")
+         /\ g.expg = 1
+         /\ R.cfn = 0 /\ R.expg = 1 /\ R.onx = g.onx
          /\ R.a1 \in {0, ETIMEDOUT, ESTOPPED}
-         /\ (R.a1 = 0 => f.xok = 1)             \* success by expiry only for a sleep that was allowed to expire
+         /\ (R.a1 = 0 => g.xok = 1)             \* success by expiry only for a sleep that was allowed to expire
          /\ f' = IF R.a3 = 1 THEN [Logged(R) EXCEPT !.res = R.a1, !.sleep = 0] ELSE Logged(R)
          /\ active' = IF R.a3 = 1 THEN FALSE ELSE active
          /\ owed' = IF R.a3 = 1 THEN Owe(1) ELSE owed
          /\ UNCHANGED <<dead, incb, hascb>>
-XDone == /\ Ev("xdone")
-         /\ f.expg = 1 /\ R.expg = 0
-         /\ f' = [f EXCEPT !.expg = 0, !.cfn = R.cfn, !.onx = R.onx, !.res = R.res, !.sleep = R.sleep, !.stop = R.stop,
+XDone == \E g \in HavocSet(f) : /\ Ev("xdone")
+         /\ g.expg = 1 /\ R.expg = 0
+         /\ f' = [g EXCEPT !.expg = 0, !.cfn = R.cfn, !.onx = R.onx, !.res = R.res, !.sleep = R.sleep, !.stop = R.stop,
                            !.abort = R.abort, !.xok = R.xok]
          /\ UNCHANGED <<active, dead, owed, incb, hascb>>
 
